@@ -14,5 +14,8 @@ def P(name, pkg, race=False, run=None, quick=1500, thorough=14400, tiers=None, a
 
 PROPS = {
     "C01": {"level": "exploration", "parts": [P("main", "c01", run="^TestC01$")]},
+    "C02": {"level": "exploration", "parts": [P("main", "c02", run="^TestC02$")]},
+    "C03": {"level": "exploration", "parts": [P("main", "c03", run="^TestC03$")]},
+    "C05": {"level": "exploration", "parts": [P("main", "c05", run="^TestC05$")]},
     "C14": {"level": "exploration", "parts": [P("main", "c14", run="^TestC14$")]},
 }
